@@ -5,8 +5,9 @@
     queueForSend, sendInReplyTo, dropAndSendInReplyTo, dropAndReset, EnqueueBytesAndSend,
     stateMachine.SendAppMessages, inSession.resendMessages, prepMessageForSend, persist, sendQueued, dropQueued.
 
-  Threads.  Thread 0 is the session goroutine (`session.run`): a list of `SCall`s.  Thread i+1 is an application
-  goroutine: it calls `queueForSend` (`SendToTarget`) a given number of times.  Every entry point is a PROGRAM: a list
+  Threads.  Thread 0 is the session goroutine (`session.run`): a list of `SCall`s.  Thread i+1 is a foreign goroutine:
+  any sequence of `SendToTarget` (`queueForSend`) and `ResetSession` (ShutdownNow's Logout through `sendInReplyTo`
+  on the caller's goroutine, then `dropAndReset`) calls.  Every entry point is a PROGRAM: a list
   of atomic `Step`s at lock granularity.  `readSeq` (local register := store.sender) and `persistIncr`/`incrOnly`
   (hand the register's number out, store.sender + 1) are deliberately SEPARATE steps, so two threads that are not
   serialised by `sendMutex` can read the same number (see the witness in Props/C02.lean).
@@ -181,17 +182,45 @@ def SCall.prog (persist : Bool) : SCall → List Step
   | .enqueueBytesAndSend l n lim => prog_enqueueBytesAndSend l n lim
   | .resendMessages items => prog_resendMessages items
 
-/-- `k` calls of queueForSend (one application goroutine) -/
-def appProg (persist : Bool) : Nat → List Step
-  | 0 => []
-  | k + 1 => prog_queueForSend persist ++ appProg persist k
+/-- session.send / sendInReplyTo with both branches: not logged on ⇒ `queueForSend` -/
+def prog_sendInReplyToFull (persist loggedOn : Bool) (lim : Option Nat) : List Step :=
+  if loggedOn then prog_sendInReplyTo persist lim else prog_queueForSend persist
 
-/-- thread programs built from the entry points: thread 0 = session goroutine, thread i+1 = application goroutine i -/
-def compile (persist : Bool) (sess : List SCall) (apps : Nat → Nat) : Nat → List Step
+/-- what `session.State.ShutdownNow(session)` does on the CALLER's goroutine: nothing (latent / connected but not
+    logged on), or `sendLogout` = `sendInReplyTo` of a Logout, whose own IsLoggedOn test picks the branch -/
+inductive Shutdown
+  | nothing
+  | logout (loggedOn : Bool) (lim : Option Nat)
+  deriving Repr
+
+def prog_shutdownNow (persist : Bool) : Shutdown → List Step
+  | .nothing => []
+  | .logout l lim => prog_sendInReplyToFull persist l lim
+
+/-- the public `quickfix.ResetSession` (registry.go), run by whoever calls it: ShutdownNow, then dropAndReset -/
+def prog_resetSession (persist : Bool) (sd : Shutdown) : List Step :=
+  prog_shutdownNow persist sd ++ prog_dropAndReset
+
+/-- what a goroutine other than the session's may do to the send path: `SendToTarget` and `ResetSession` -/
+inductive ACall
+  | queueForSend
+  | resetSession (sd : Shutdown)
+  deriving Repr
+
+def ACall.prog (persist : Bool) : ACall → List Step
+  | .queueForSend => prog_queueForSend persist
+  | .resetSession sd => prog_resetSession persist sd
+
+/-- `k` calls of SendToTarget -/
+def sends (k : Nat) : List ACall := List.replicate k ACall.queueForSend
+
+/-- thread programs built from the entry points: thread 0 = session goroutine, thread i+1 = a foreign goroutine
+    (application sender, operator, …) running any sequence of `ACall`s -/
+def compile (persist : Bool) (sess : List SCall) (apps : Nat → List ACall) : Nat → List Step
   | 0 => sess.flatMap (SCall.prog persist)
-  | i + 1 => appProg persist (apps i)
+  | i + 1 => (apps i).flatMap (ACall.prog persist)
 
-def init (persist : Bool) (n0 : Nat) (sess : List SCall) (apps : Nat → Nat) : State :=
+def init (persist : Bool) (n0 : Nat) (sess : List SCall) (apps : Nat → List ACall) : State :=
   initRaw n0 (compile persist sess apps)
 
 /-! ### reading the regenerated lock skeletons (`Qfx.Gen.skel_*`, tokens of harness/extract.go) as programs
@@ -240,6 +269,21 @@ def expandPrep (persistSkel : List String) (o : Opts) : List String → Option (
               [if o.persist then Step.persistIncr else Step.incrOnly])
       else none
   | _ => none
+
+/-- sendInReplyTo's skeleton: `if !IsLoggedOn { return queueForSend }`, then the locked branch -/
+def expandSendInReplyTo (o : Opts) : List String → Option (List Step)
+  | "callQueueForSend" :: rest => if o.loggedOn then expand .sendInReplyTo o rest else some (prog_queueForSend o.persist)
+  | _ => none
+
+/-- ResetSession's skeleton and the call chain behind `ShutdownNow`: the logged-on states send a Logout through
+    sendLogout → sendLogoutInReplyTo → sendInReplyTo, every other implementation is empty, and these are all the
+    implementations there are -/
+def resetSessionShapeOK (resetSession shutdownLoggedOn shutdownNotLoggedOn shutdownLatent sendLogout sendLogoutInReplyTo
+    impls : List String) : Bool :=
+  resetSession == ["callShutdownNow", "callDropAndReset"] &&
+  shutdownLoggedOn == ["callSendLogout"] && shutdownNotLoggedOn == [] && shutdownLatent == [] &&
+  sendLogout == ["callSendLogoutInReplyTo"] && sendLogoutInReplyTo == ["callSendInReplyTo"] &&
+  impls == ["connectedNotLoggedOn", "latentState", "loggedOn"]
 
 /-- resendMessages' skeleton: before `lockR` only the gap fill of the no-persistence path, between `lockR` and
     `unlockR` nothing but calls that end in EnqueueBytesAndSend, `unlockR` last -/
